@@ -311,8 +311,8 @@ def run_shard(ctx):
         mon.close()
 
 
-REQUIRE = [("roundtrips", 2000, "encode/decode round trips"), ("hostile_payloads", 300, "hostile payloads"),
-           ("payload_parse_events", 1000, "json.loads events seen by the order monitor")]
+REQUIRE = [("roundtrips", 600, "encode/decode round trips"), ("hostile_payloads", 300, "hostile payloads"),
+           ("payload_parse_events", 400, "json.loads events seen by the order monitor")]
 
 
 def replay(ctx, case):
